@@ -265,7 +265,8 @@ def CBA.free (a : CBA) (addr : Option Nat) : M CBA :=
   match addr with
   | none => pure a
   | some addr =>
-    if addr < a.off then pure a        -- not an address of this allocator (second `fix:` of C16)
+    -- not an address of this allocator (`fix:` D-C16-1 below the range, D-C17-4 above it)
+    if addr < a.off || decide (addr - a.off ≥ a.size) then pure a
     else do
       match ← a.cell addr with
       | none => pure a
